@@ -40,6 +40,8 @@ def _wrap(fn):
         except OverflowError: return math.inf
     return g
 def _pow(a, c):
+    if a == 0 and c < 0:      # C: pow(+-0, y<0) is a pole (math.pow raises ValueError there)
+        return math.copysign(math.inf, a) if (c == int(c) and int(c) % 2 == 1) else math.inf
     try: return math.pow(a, c)
     except ValueError: return math.nan
     except OverflowError: return math.inf if not (a < 0 and c == int(c) and int(c) % 2 == 1) else -math.inf
@@ -197,6 +199,266 @@ def fam_linear(rng):
     return a, b, root, "linear", [m, q], f"+ * {C(m)} x {C(q)}"
 
 
+# ---------------------------------------------------------------- the whole double range (second strengthening pass)
+DBL_MAX = 1.7976931348623157e308
+HALF_MAX = 2.0 ** 1023
+TINY = 5e-324
+
+
+def p10(e):
+    """10**e clipped to the positive doubles (subnormals included)"""
+    if e >= 308.25: return DBL_MAX
+    if e <= -323.3: return TINY
+    return max(10.0 ** e, TINY)
+
+
+def tight_acc(rng, root, a, b):
+    """accuracy at the lower end of the quantifier (1e-14*|root| and a ladder above it), sometimes anywhere up to the width"""
+    w = abs(b - a)
+    if w == math.inf: w = DBL_MAX
+    lo = max(1e-14 * abs(root) if root != 0 else 1e-14 * w, TINY)
+    if lo >= w: return w
+    if rng.random() < 0.75: return min(w, lo * rng.choice([1.0, 1.0, 1.0, 3.0, 10.0, 1e3, 1e7]))
+    return math.exp(rng.uniform(math.log(lo), math.log(w)))
+
+
+def fam_decades(rng):
+    """brackets of up to 630 decades (0 / subnormal / -huge .. huge), roots from subnormal to 1e300, function values that underflow or
+    overflow to +-inf towards the far end: Ridder's step degenerates to bisection there, so the iteration count approaches
+    log2(width/accuracy) (up to ~2100)"""
+    kind = rng.choice(["lin", "lin", "neglin", "scaledlin", "powlaw", "powlaw", "log", "atan", "rational", "exp", "cubic"])
+    lr = rng.choice([rng.uniform(-323, 300), rng.uniform(-323, -250), rng.uniform(-120, 0), rng.uniform(-30, 30), rng.uniform(200, 300)])
+    if kind in ("lin", "neglin", "scaledlin"):
+        r = p10(lr); K = 1.0
+        if kind == "scaledlin": K = rng.choice([-1, 1]) * p10(rng.uniform(-300, 300))
+        fx = {"lin": f"- x {C(r)}", "neglin": f"- {C(r)} x", "scaledlin": f"* {C(K)} - x {C(r)}"}[kind]
+        params = [K, r]; lo_ok_neg = True
+    elif kind == "powlaw":
+        p = rng.choice([0.5, 2.0, 3.0, 1.5, 0.25, 5.0, -1.0, -2.0, -0.5, rng.uniform(0.2, 4)])
+        lr = max(-300.0, min(300.0, lr)) / max(1.0, abs(p)); r = p10(lr); c = _pow(r, p)
+        fx = f"- pow x {hx(p)} {C(c)}"; params = [p, c]; lo_ok_neg = False
+        r = _pow(c, 1 / p)
+    elif kind == "log":
+        r = p10(lr); fx = f"- log x {C(math.log(r))}"; params = [math.log(r)]; lo_ok_neg = False
+    elif kind == "atan":
+        r = p10(lr); s = p10(rng.uniform(-2, 2) - lr); t = rng.choice([0.0, rng.uniform(-1.2, 1.2)])
+        fx = f"- atan * {C(s)} - x {C(r)} {C(t)}"; params = [s, r, t]; lo_ok_neg = True
+        r = r + math.tan(t) / s
+        if r <= 0: r = params[1]; fx = f"atan * {C(s)} - x {C(r)}"
+    elif kind == "rational":
+        r = p10(min(lr, 290.0)); s = rng.uniform(0.1, 10) * r
+        fx = f"- / x + x {C(s)} {C(r / (r + s))}"; params = [s]; lo_ok_neg = False
+    elif kind == "exp":
+        r = p10(lr); t = rng.choice([-1, 1]) * rng.uniform(0.1, 50); w = t / r
+        fx = f"- exp * {C(w)} x {C(math.exp(t))}"; params = [w, math.exp(t)]; lo_ok_neg = True
+    else:
+        r = p10(max(-100.0, min(100.0, lr / 3))); c = r * r * r
+        fx = f"- * x * x x {C(c)}"; params = [c]; lo_ok_neg = True
+    up = rng.choice([rng.uniform(0.3, 620), rng.uniform(100, 620), rng.uniform(0.3, 20)])
+    hi = r * p10(min(up, 300.0))
+    if up > 300 and hi < math.inf: hi = hi * p10(up - 300)
+    hi = min(hi, DBL_MAX)
+    q = rng.random()
+    if q < 0.35: lo = 0.0
+    elif q < 0.45: lo = TINY
+    elif q < 0.75 or not lo_ok_neg: lo = r / p10(rng.uniform(0.3, 300))
+    elif q < 0.9: lo = -p10(rng.uniform(-320, 308.25))
+    else: lo = -hi
+    if rng.random() < 0.3:      # the mirror image f(-x) on [-hi,-lo] (negative root)
+        fx = " ".join("neg x" if t == "x" else t for t in fx.split()); lo, hi = -hi, -lo
+    return lo, hi, r, "dec-" + kind, params, fx
+
+
+def gen_decades(rng, n):
+    cs = []
+    for k in range(n):
+        a, b, root, name, params, fx = fam_decades(rng)
+        if not (a < b) or not all(math.isfinite(v) for v in [a, b] + list(params)): continue
+        acc = tight_acc(rng, root, a, b)
+        if rng.random() < 0.5: a, b = b, a
+        op = "root" if k % 6 else "both"
+        cs.append(Case(line(op, a, b, acc, name, params, fx), (op, name, "decades")))
+    # the extremes: the widest brackets of doubles, the smallest roots and accuracies (about 2050 and 2100 halvings)
+    for a, b, r in [(0.0, DBL_MAX, TINY), (-DBL_MAX, DBL_MAX, 1e-310), (0.0, DBL_MAX, 3e-320), (-DBL_MAX, 1e300, -TINY), (0.0, 1e300, 1e-100), (1e300, 0.0, 1e-100),
+                    (-1e300, 1e-300, -1e-100), (0.0, 1e300, 1e-20)]:
+        cs.append(Case(line("root", a, b, max(1e-14 * abs(r), TINY), "dec-lin", [1.0, r], f"- x {C(r)}"), ("root", "dec-lin", "decades", "extreme")))
+    return cs
+
+
+def ulps(x, k):
+    """x moved by k units in the last place of x (k may be negative)"""
+    return x + k * math.ulp(x)
+
+
+def gen_inf_ends(rng, n):
+    """function values that overflow to +-inf at one or both bracket ends (finite real functions whose double evaluation overflows:
+    power laws, exponentials, scaled polynomials on brackets of many decades), combined with every kind of value at the other end:
+    an exact zero, a ladder of tiny values of either sign next to the zero, an ordinary value of either sign, +-inf, NaN"""
+    cs = []
+    # (z, p): z^p is computed exactly, so x^p - z^p vanishes exactly at z
+    exact = [(2.0, 3.0), (3.0, 2.0), (2.0, 4.0), (0.5, -1.0), (8.0, 2.0), (10.0, 3.0), (1024.0, 2.0), (2.0 ** -20, 3.0), (2.0 ** 100, 2.0), (2.0 ** -300, 2.0), (3.0, 5.0),
+             (0.125, -2.0), (4.0, 1.5), (2.0 ** 60, -2.0), (7.0, 20.0)]
+    for k in range(n):
+        kind = rng.choice(["powlaw", "powlaw", "negpowlaw", "prodexp", "expm1", "scaled", "prodpoly", "odd", "even", "nanmix"])
+        near_kind = rng.choice(["zero", "zero", "zero", "ladder", "ladder", "ordinary-inside", "ordinary-outside", "far-inf"])
+        if kind in ("powlaw", "negpowlaw"):
+            z, p = rng.choice(exact); c = _pow(z, p)
+            fx = f"- pow x {hx(p)} {C(c)}" if kind == "powlaw" else f"- {C(c)} pow x {hx(p)}"
+            if p > 0: far = p10(rng.uniform(308.3 / p + 0.5, 308.25))                              # x^p overflows beyond DBL_MAX^(1/p)
+            else: far = rng.choice([0.0, p10(rng.uniform(-323.0, -308.3 / abs(p) - 0.5))])         # the pole of x^p, p < 0, and its neighbourhood
+            dirn = 1.0 if far > z else -1.0; neg_ok = False
+        elif kind == "prodexp":       # (x - z) * exp(x): exact zero at z, overflows beyond x ~ 709
+            z = rng.choice([0.0, float(rng.randint(-5, 5)), rng.uniform(-5, 5)]); fx = f"* - x {C(z)} exp x"; far = rng.uniform(711, 1e4); dirn = 1.0; neg_ok = True
+        elif kind == "expm1":         # exp(w x) - 1: exact zero at 0
+            w = rng.choice([-1, 1]) * 10 ** rng.uniform(-3, 3); z = 0.0; fx = f"- exp * {C(w)} x c 0x1p+0"; far = math.copysign(rng.uniform(711, 1e5) / abs(w), w); dirn = math.copysign(1.0, w); neg_ok = True
+        elif kind == "scaled":        # K (x - z): exact zero at z, overflows where K |x - z| > DBL_MAX
+            K = rng.choice([-1, 1]) * p10(rng.uniform(200, 308)); z = rng.choice([0.0, rng.uniform(-5, 5), p10(rng.uniform(-6, 6))]); fx = f"* {C(K)} - x {C(z)}"
+            dirn = rng.choice([-1.0, 1.0]); far = z + dirn * p10(rng.uniform(308.5 - math.log10(abs(K)), 308.5 - math.log10(abs(K)) + rng.uniform(0, 100))); neg_ok = True
+            if abs(far) == math.inf: far = dirn * DBL_MAX
+        elif kind == "prodpoly":      # (x - z) (1 + x^2): exact zero at z, overflows beyond ~1e103
+            z = rng.choice([0.0, rng.uniform(-5, 5), p10(rng.uniform(-6, 6))]); fx = f"* - x {C(z)} + c 0x1p+0 * x x"; dirn = rng.choice([-1.0, 1.0]); far = dirn * p10(rng.uniform(103, 308.25)); neg_ok = True
+        elif kind == "odd":           # x^3 (or x^5): -inf at one end, +inf at the other; the root 0 is found by bisection
+            fx = rng.choice(["* x * x x", "* x * * x x * x x", f"* {C(p10(rng.uniform(250, 300)))} x"]); z = 0.0
+            a = -p10(rng.uniform(104, 308.25)); b = p10(rng.uniform(104, 308.25))
+            if rng.random() < 0.3: b = -a      # the midpoint is the root
+            if rng.random() < 0.5: a, b = b, a
+            cs.append(Case(line(rng.choice(["root", "both"]), a, b, 10 ** rng.uniform(-12, 3), "inf-odd", [], fx), ("root", "inf-end", "inf-both-opposite"))); continue
+        elif kind == "even":          # the same infinite value at both ends (roots inside or not): must be rejected
+            fx = rng.choice([f"- * x x {C(p10(rng.uniform(-3, 200)))}", "- cosh x c 0x1p+1", f"- {C(1.0)} * * x x * x x", "exp * x x", f"* {C(-1e300)} + c 0x1p+0 * x x"])
+            L = 800.0 if "cosh" in fx or "exp" in fx else p10(rng.uniform(155, 308.25))
+            a, b = -L * rng.choice([1.0, rng.uniform(0.5, 1.0)]), L
+            if rng.random() < 0.5: a, b = b, a
+            cs.append(Case(line("root", a, b, 10 ** rng.uniform(-12, 3), "inf-even", [], fx), ("root", "inf-end", "inf-both-equal"))); continue
+        else:                         # NaN at one end, +-inf at the other
+            fx = rng.choice(["+ log x * x * x x", "- sqrt x exp neg x", "/ exp x - x x"]); a = -rng.uniform(750, 1e4); b = p10(rng.uniform(103, 300))
+            if fx.startswith("/"): a, b = rng.uniform(-5, 5), rng.uniform(711, 1e4)
+            if rng.random() < 0.5: a, b = b, a
+            cs.append(Case(line("root", a, b, 1e-8, "inf-nan", [], fx), ("root", "inf-end", "nan-end"))); continue
+        # the near end
+        if near_kind == "zero": near = z
+        elif near_kind == "ladder": near = ulps(z, rng.choice([-1, 1]) * rng.choice([1, 2, 3, 10, 100, 1000, 10 ** 5, 10 ** 7, 10 ** 10])) if z != 0 else rng.choice([-1, 1]) * p10(rng.uniform(-323, -3))
+        elif near_kind == "ordinary-inside": near = z + dirn * abs(z if z != 0 else 1.0) * rng.uniform(0.01, 0.9)
+        elif near_kind == "ordinary-outside": near = z - dirn * abs(z if z != 0 else 1.0) * rng.uniform(0.01, 0.9)
+        else: near = -far if neg_ok else z
+        if not neg_ok and near < 0: near = z
+        a, b = near, far
+        if a == b: continue
+        if rng.random() < 0.5: a, b = b, a
+        acc = max(1e-14 * abs(z), TINY) * rng.choice([1.0, 10.0, 1e6]) if rng.random() < 0.5 else 10 ** rng.uniform(-12, 0)
+        op = "root" if k % 4 else "both"
+        cs.append(Case(line(op, a, b, acc, "inf-" + kind, [z], fx), (op, "inf-end", "near-" + near_kind)))
+    return cs
+
+
+def gen_narrow(rng, n):
+    """brackets a few units in the last place to 1e-6 (relative) wide around a root, symmetric and lopsided; accuracy up to the width"""
+    cs = []
+    ladder = [1, 2, 3, 5, 10, 100, 1000, 10 ** 4, 10 ** 6, 10 ** 8, 10 ** 10]
+    for k in range(n):
+        kind = rng.choice(["lin", "powlaw", "cosx", "atan", "cubic", "expc"])
+        if kind == "lin":
+            r = rng.choice([-1, 1]) * p10(rng.uniform(-300, 300)); m = rng.choice([-1, 1]) * 10 ** rng.uniform(-3, 3); fx = f"* {C(m)} - x {C(r)}"
+        elif kind == "powlaw":
+            p = rng.choice([2.0, 3.0, 0.5, -1.0, 1.5]); r = p10(rng.uniform(-40, 40)); c = _pow(r, p); fx = f"- pow x {hx(p)} {C(c)}"
+        elif kind == "cosx": r = 0.7390851332151607; fx = "- cos x x"
+        elif kind == "atan":
+            r = rng.uniform(-5, 5); t = rng.uniform(-1.2, 1.2); fx = f"- atan - x {C(r)} {C(t)}"; r = r + math.tan(t)
+        elif kind == "cubic":
+            r = rng.uniform(-5, 5); fx = f"* - x {C(r)} * - x {C(r)} - x {C(r)}"
+        else:
+            r = rng.uniform(-20, 20); fx = f"- exp x {C(math.exp(r))}"
+        a = ulps(r, -rng.choice(ladder)); b = ulps(r, rng.choice(ladder))
+        if rng.random() < 0.25:      # two adjacent doubles with the sign change between them (if there is such a pair next to r)
+            f, _ = parse_fexpr(fx.split(), 0)
+            for u, v in [(ulps(r, -1), r), (r, ulps(r, 1)), (ulps(r, -2), ulps(r, -1)), (ulps(r, 1), ulps(r, 2))]:
+                if classify(f, u, v)[0] == "opp": a, b = u, v; break
+        if not (a < b): continue
+        w = b - a
+        acc = rng.choice([w, w, w / 2, w / 3, math.ulp(r), max(1e-14 * abs(r), TINY), w * rng.uniform(0.01, 1)])
+        acc = min(max(acc, TINY, 1e-14 * abs(r)), w)      # the quantifier: from 1e-14*|root| up to the width (the width itself when it is smaller than that)
+        if rng.random() < 0.5: a, b = b, a
+        op = "root" if k % 4 else "both"
+        cs.append(Case(line(op, a, b, acc, "narrow-" + kind, [r], fx), (op, "narrow")))
+    return cs
+
+
+def gen_midpoint_overflow(rng, n):
+    """a far end above DBL_MAX/2 and a root z with z + far end > DBL_MAX: the sum of the ends of a sub-bracket around the root can overflow
+    (known finding K-C02-3: the midpoint is formed as (x1+x2)/2)"""
+    cs = []
+    for _ in range(n):
+        hi = rng.choice([DBL_MAX, DBL_MAX, rng.uniform(1.02 * HALF_MAX, DBL_MAX)])
+        zmin = max((DBL_MAX - hi) * 1.01, 1e293); r = math.exp(rng.uniform(math.log(zmin), math.log(0.98 * hi)))
+        lo = rng.choice([0.0, 1.0, -1e308, -TINY, r / 10, r * 0.99, r * 1e-30])
+        fx = rng.choice([f"- x {C(r)}", f"- {C(r)} x", f"- atan * {C(1e-307)} x {C(math.atan(1e-307 * r))}", f"- log x {C(math.log(r))}"])
+        if "log" in fx and lo < 0: lo = 0.0
+        if rng.random() < 0.5: lo, hi = -hi, -lo; fx = " ".join("neg x" if t == "x" else t for t in fx.split())
+        a, b = (lo, hi) if rng.random() < 0.5 else (hi, lo)
+        cs.append(Case(line("root", a, b, r * 10 ** rng.uniform(-14, -3), "midpoint-overflow", [r], fx), ("root", "midpoint-overflow")))
+    return cs
+
+
+def req_text(a, b, acc, fam, params, fx):
+    return f"{hx(a)} {hx(b)} {hx(acc)} {fam} {len(params)} " + " ".join(hx(p) for p in params) + (" " if params else "") + fx
+
+
+def gen_seq(rng, n):
+    """histories: several requests served by one process, one after the other — the same request repeated, interleaved with others, with
+    the ends swapped, a wide bracket then a narrow one then the wide one again for the same function, a request that runs into the iteration
+    limit (warning) or one that takes ~2000 iterations before an ordinary one, a request that ends the process last"""
+    cs = []
+    fams = [fam_powlaw, fam_poly, fam_saturating, fam_pwl, fam_misc, fam_linear, fam_decades]
+    def draw(want=("zero", "opp")):
+        for _ in range(50):
+            a, b, root, name, params, fx = rng.choice(fams)(rng)
+            if not (a < b) or not all(math.isfinite(v) for v in [a, b] + list(params)): continue
+            f, _ = parse_fexpr(fx.split(), 0)
+            if classify(f, a, b)[0] not in want: continue
+            acc = pick_acc(rng, root, a, b) if name[:4] != "dec-" else tight_acc(rng, root, a, b)
+            if rng.random() < 0.5: a, b = b, a
+            return [a, b, acc, name, params, fx, root, f]
+        return None
+    def narrowed(A):
+        a, b, acc, name, params, fx, root, f = A
+        lo, hi = min(a, b), max(a, b); d = (hi - lo) * 10 ** rng.uniform(-6, -1)
+        if not (d < math.inf): d = abs(root) if root else 1.0
+        l2, h2 = max(lo, root - d), min(hi, root + d)
+        if not (l2 < h2) or classify(f, l2, h2)[0] not in ("zero", "opp"): return A
+        return [l2, h2, min(acc, h2 - l2), name, params, fx, root, f]
+    def swapped(A): return [A[1], A[0]] + A[2:]
+    def stuck():        # adjacent doubles around an irrational root, accuracy = the width: the bracket cannot shrink, every iteration is spent, a warning is printed
+        c = rng.choice([2.0, 3.0, 5.0, 7.0, 10.0]) * 4.0 ** rng.randint(-40, 40); p = rng.choice([2.0, 3.0]); r = c ** (1 / p)
+        fx = f"- pow x {hx(p)} {C(c)}"; f, _ = parse_fexpr(fx.split(), 0)
+        for a, b in [(ulps(r, -1), r), (r, ulps(r, 1))]:
+            if classify(f, a, b)[0] == "opp": return [a, b, b - a, "stuck", [p, c], fx, r, f]
+        return None
+    for k in range(n):
+        A = draw(); B = draw()
+        if A is None or B is None: continue
+        pat = rng.choice(["AA", "ABA", "AsA", "wnw", "SA", "LAB", "ABX", "AaA"])
+        if pat == "AA": seq = [A, A]
+        elif pat == "ABA": seq = [A, B, A] + ([B] if rng.random() < 0.5 else [])
+        elif pat == "AsA": seq = [A, swapped(A), A]
+        elif pat == "wnw": seq = [A, narrowed(A), A]
+        elif pat == "SA":
+            S = stuck()
+            if S is None: continue
+            seq = [A, S, A, S]
+        elif pat == "LAB":      # a request of ~1300-2100 iterations first
+            r = p10(rng.uniform(-300, -50)); L = [0.0, p10(rng.uniform(200, 308)), max(1e-14 * r, TINY), "dec-lin", [1.0, r], f"- x {C(r)}", r, None]
+            seq = [A, L, A, B]
+        elif pat == "ABX":      # the last request ends the process
+            X = draw(want=("same", "nan"))
+            if X is None: continue
+            seq = [A, B, X]
+        else:                   # the same function and bracket with another accuracy in between
+            A2 = list(A); A2[2] = min(abs(A[1] - A[0]), A[2] * 10 ** rng.uniform(1, 6))
+            seq = [A, A2, A]
+        ln = f"seq {len(seq)} " + " ".join(req_text(*q[:6]) for q in seq)
+        cs.append(Case(ln, ("seq", "seq-" + pat)))
+    return cs
+
+
 def generate(rng, tier):
     cs = []
     big = tier != "quick"
@@ -276,24 +538,58 @@ def generate(rng, tier):
         an = -abs(a) - 0.5
         fx2 = rng.choice([f"log x", f"sqrt x", f"- sqrt x c 0x1p+0", f"log * x x", f"/ - x {C(an)} - x {C(an)}"])
         cs.append(Case(line("root", an, abs(b) + 1.0, 1e-8, "nan", [], fx2) if rng.random() < 0.5 else line("root", abs(b) + 1.0, an, 1e-8, "nan", [], fx2), ("root", "nan-end")))
+    # second strengthening pass: the whole double range, infinite end values, brackets a few ulps wide, histories
+    cs += gen_decades(rng, 3000 if big else 150)
+    cs += gen_inf_ends(rng, 3000 if big else 160)
+    cs += gen_narrow(rng, 3000 if big else 120)
+    cs += gen_seq(rng, 1500 if big else 70)
+    cs += gen_midpoint_overflow(rng, 60 if big else 6)
     return cs
 
 
 # ---------------------------------------------------------------- S4
+def sgn(v): return (v > 0) - (v < 0)
+
+
+def classify(f, lo, hi):
+    """what the property demands of the request: 'nan' / 'same' -> the process ends with a diagnostic, 'zero' -> the zero end comes back,
+    'opp' -> a root comes back.  Infinite end values are values like any others (a real function whose double evaluation overflows)."""
+    fl, fr = f(lo), f(hi)
+    if fl != fl or fr != fr: return "nan", fl, fr
+    if fl == 0 or fr == 0: return "zero", fl, fr
+    if (fl > 0) == (fr > 0): return "same", fl, fr
+    return "opp", fl, fr
+
+
+def parse_req(t, k):
+    """one request 'a b acc fam np p1..pnp fexpr' starting at token k -> (a, b, acc, fam, params, f, fexpr tokens, next index)"""
+    a, b, acc = (tokf(x) for x in t[k:k + 3]); fam = t[k + 3]; n = int(t[k + 4]); params = [tokf(x) for x in t[k + 5:k + 5 + n]]
+    f, j = parse_fexpr(t, k + 5 + n)
+    return a, b, acc, fam, params, f, t[k + 5 + n:j], j
+
+
 def parse_case(ln):
+    """-> op, list of requests"""
     t = ln.split(); op = t[0]
-    a, b, acc = (tokf(x) for x in t[1:4]); fam = t[4]; n = int(t[5]); params = [tokf(x) for x in t[6:6 + n]]
-    return op, a, b, acc, fam, params, t[6 + n:]
+    if op == "seq":
+        n = int(t[1]); k = 2; reqs = []
+        for _ in range(n):
+            r = parse_req(t, k); reqs.append(r); k = r[-1]
+        return op, reqs
+    return op, [parse_req(t, 1)]
 
 
-def split_out(io, op):
+def split_out(io, ncalls):
     """-> list of (result, warn, count, trace) per call"""
     t = io.split(); out = []; k = 0
     try:
-        for _ in range(1 if op == "root" else 2):
+        for _ in range(ncalls):
             n = int(t[k + 2]); out.append((tokf(t[k]), t[k + 1], n, [tokf(x) for x in t[k + 3:k + 3 + n]])); k += 3 + n
     except (IndexError, ValueError): return None
     return out if k == len(t) else None
+
+
+def ncalls_of(op, reqs): return 2 if op == "both" else len(reqs)
 
 
 def rebracket_cases(tr):
@@ -312,50 +608,48 @@ def rebracket_cases(tr):
     return out
 
 
-def predicates(c, io):
+def region(f, lo, hi, fl, fr):
+    """where in the input space a sign-change request lies (suffix of the signature; known findings are matched on it).
+    midpoint-sum-overflows: the sign change of f lies where x + hi exceeds the largest double (resp. x + lo below the most negative one), i.e.
+    f keeps the sign of the near end up to t = (DBL_MAX - hi) + 2^970: the sum x1 + x2 of the ends of a sub-bracket around it can overflow."""
+    if hi > HALF_MAX:
+        t = max(lo, (DBL_MAX - hi) + 2.0 ** 970)
+        if t <= hi:
+            m = f(t)
+            if sgn(m) == sgn(fl) and sgn(m) != sgn(fr): return ":midpoint-sum-overflows"
+    if lo < -HALF_MAX:
+        t = min(hi, -((DBL_MAX + lo) + 2.0 ** 970))
+        if t >= lo:
+            m = f(t)
+            if sgn(m) == sgn(fr) and sgn(m) != sgn(fl): return ":midpoint-sum-overflows"
+    return ""
+
+
+def check_returned(op, req, calls):
+    """the clauses about one request that must return a number, evaluated on the calls made for it (two for op both)"""
     out = []
-    if io.startswith(("CRASH", "SANITIZER", "TIMEOUT", "HARNESSERR")): return out
-    op, a, b, acc, fam, params, fx = parse_case(c.line)
-    f, _ = parse_fexpr(fx, 0)
+    a, b, acc, fam, params, f, fx, _ = req
     lo, hi = min(a, b), max(a, b)
-    fl, fr = f(lo), f(hi)
-    exited = io.startswith("EXIT")
-    if abs(fl) == math.inf or abs(fr) == math.inf: return out      # not a real-valued function on the bracket: outside the property
-    if fl != fl or fr != fr:
-        if not exited: out.append((op + ":nan-end", f"f is NaN at a bracket end but Find_Root returned ({io[:60]})"))
-        return out
-    if fl == 0 or fr == 0:
-        if exited: return [(op + ":end-zero", "a bracket end is a zero of f but Find_Root terminated the process")]
-        for (x, w, n, tr) in split_out(io, op) or []:
-            if not ((fl == 0 and x == lo) or (fr == 0 and x == hi)): out.append((op + ":end-zero", f"a bracket end is a zero of f but {x!r} was returned"))
+    cls, fl, fr = classify(f, lo, hi)
+    if cls == "zero":
+        for (x, w, n, tr) in calls:
+            if not ((fl == 0 and x == lo) or (fr == 0 and x == hi)): out.append((op + ":end-zero", f"a bracket end is a zero of f (f({lo!r}) = {fl!r}, f({hi!r}) = {fr!r}) but {x!r} was returned"))
             if n != 2: out.append((op + ":end-zero-evals", f"{n} evaluations for a bracket with a zero end"))
         return out
-    if (fl > 0) == (fr > 0):
-        if not exited: out.append((op + ":no-sign-change", f"f({lo!r}) = {fl!r} and f({hi!r}) = {fr!r} have equal signs but Find_Root returned ({io[:60]})"))
-        return out
-    # opposite signs at the ends: a number must come back
-    # function values whose products would leave the double range are inside the property like any others (Find_Root compares signs and
-    # scales Ridder's step since the repair of K-C02-2); no region is exempt
-    under = ""
-    if exited: return [(op + ":sign-change-exit" + under, f"f({lo!r}) = {fl!r} and f({hi!r}) = {fr!r} have opposite signs but Find_Root terminated the process")]
-    calls = split_out(io, op)
-    if not calls: return [(op + ":output", "unexpected output shape")]
-    if op == "both":
-        (x1, w1, n1, t1), (x2, w2, n2, t2) = calls
-        if not ((x1 == x2 or (x1 != x1 and x2 != x2)) and w1 == w2 and [hx(u) for u in t1] == [hx(u) for u in t2]):
-            out.append(("both:order", f"Find_Root(a,b) = {x1!r} ({n1} evaluations) but Find_Root(b,a) = {x2!r} ({n2} evaluations)"))
+    # opposite signs at the ends: function values whose products would leave the double range, and infinite ones, are inside the property like
+    # any others (Find_Root compares signs, scales Ridder's step and bisects where nothing can be interpolated); no region is exempt
+    cls_r = region(f, lo, hi, fl, fr)
     for (x, w, n, tr) in calls:
         bad = [u for u in tr if not (lo <= u <= hi)]
-        cls = under
-        if bad: out.append((op + ":location" + cls, f"f evaluated at {bad[0]!r} outside the bracket [{lo!r},{hi!r}]"))
+        if bad: out.append((op + ":location" + cls_r, f"f evaluated at {bad[0]!r} outside the bracket [{lo!r},{hi!r}]"))
         if len(tr) >= 2 and (tr[0] != lo or tr[1] != hi): out.append((op + ":ends-first", "the first two evaluations are not the bracket ends"))
-        if not (lo <= x <= hi): out.append((op + ":inside" + cls, f"returned {x!r} outside the bracket [{lo!r},{hi!r}]")); continue
+        if not (lo <= x <= hi): out.append((op + ":inside" + cls_r, f"returned {x!r} outside the bracket [{lo!r},{hi!r}]")); continue
         pts = [max(lo, x - acc), x, min(hi, x + acc)] + [u for u in tr if abs(u - x) <= acc and lo <= u <= hi]
         vals = [f(u) for u in pts]
         if any(v != v for v in vals) or not (min(vals) <= 0.0 <= max(vals)):
             d = ""
             if fam in ("powlaw",): d = f" (root {params[1] ** (1 / params[0])!r})"
-            out.append((op + (":accuracy-maxiter" if w == "1" else ":accuracy") + cls, f"no sign change or zero of f within acc = {acc!r} of the returned {x!r}{d}: f = {vals[:3]!r} at x-acc, x, x+acc" + (" (returned after the maximum number of iterations, with a warning)" if w == "1" else "")))
+            out.append((op + (":accuracy-maxiter" if w == "1" else ":accuracy") + cls_r, f"no sign change or zero of f within acc = {acc!r} of the returned {x!r}{d}: f = {vals[:3]!r} at x-acc, x, x+acc" + (f" (returned after the maximum number of iterations, {(n - 3) // 2}, with a warning)" if w == "1" else "")))
         if fam == "linear" and len(tr) >= 4:
             m, q = params; root = -q / m
             # first Ridder point is the root up to rounding: abscissa arithmetic ~10 eps X, function values eps(|m|X+|q|)/|m|; factor ~3 margin
@@ -365,9 +659,54 @@ def predicates(c, io):
     return out
 
 
+def predicates(c, io):
+    out = []
+    if io.startswith(("CRASH", "SANITIZER", "TIMEOUT", "HARNESSERR")): return out
+    op, reqs = parse_case(c.line)
+    exited = io.startswith("EXIT")
+    classes = []
+    for (a, b, acc, fam, params, f, fx, _) in reqs:
+        lo, hi = min(a, b), max(a, b)
+        classes.append((classify(f, lo, hi), lo, hi))
+    must_exit = [k for k, ((cls, fl, fr), lo, hi) in enumerate(classes) if cls in ("nan", "same")]
+    if exited:
+        if must_exit: return out
+        (cls, fl, fr), lo, hi = classes[-1] if op != "seq" else classes[0]
+        if op == "seq":
+            return [("seq:returning-history-exit", f"every request of the history has a zero end or opposite signs at the ends (first: f({lo!r}) = {fl!r}, f({hi!r}) = {fr!r}) but the process was terminated")]
+        if cls == "zero": return [(op + ":end-zero", f"a bracket end is a zero of f (f({lo!r}) = {fl!r}, f({hi!r}) = {fr!r}) but Find_Root terminated the process")]
+        return [(op + ":sign-change-exit", f"f({lo!r}) = {fl!r} and f({hi!r}) = {fr!r} have opposite signs but Find_Root terminated the process")]
+    if must_exit:
+        (cls, fl, fr), lo, hi = classes[must_exit[0]]
+        if cls == "nan": return [(op + ":nan-end", f"f is NaN at a bracket end (f({lo!r}) = {fl!r}, f({hi!r}) = {fr!r}) but Find_Root returned ({io[:60]})")]
+        return [(op + ":no-sign-change", f"f({lo!r}) = {fl!r} and f({hi!r}) = {fr!r} have equal signs but Find_Root returned ({io[:60]})")]
+    calls = split_out(io, ncalls_of(op, reqs))
+    if not calls: return [(op + ":output", "unexpected output shape")]
+    if op == "both":
+        (x1, w1, n1, t1), (x2, w2, n2, t2) = calls
+        if not ((x1 == x2 or (x1 != x1 and x2 != x2)) and w1 == w2 and [hx(u) for u in t1] == [hx(u) for u in t2]):
+            out.append(("both:order", f"Find_Root(a,b) = {x1!r} ({n1} evaluations) but Find_Root(b,a) = {x2!r} ({n2} evaluations)"))
+        return out + check_returned(op, reqs[0], calls)
+    if op == "seq":
+        # history independence: the same request (ends in either order) gets the same answer and the same evaluations wherever it stands in the history
+        seen = {}
+        for k, (rq, cl) in enumerate(zip(reqs, calls)):
+            a, b, acc, fam, params, f, fx, _ = rq
+            key = (hx(min(a, b)), hx(max(a, b)), hx(acc), " ".join(fx))
+            sig = (hx(cl[0]), cl[1], [hx(u) for u in cl[3]])
+            if key in seen and seen[key][1] != sig:
+                j = seen[key][0]
+                out.append(("seq:history", f"request {k + 1} of the history repeats request {j + 1} but was answered {cl[0]!r} ({cl[2]} evaluations) instead of {calls[j][0]!r} ({calls[j][2]} evaluations)"))
+            seen.setdefault(key, (k, sig))
+            out += check_returned(op, rq, [cl])
+        return out
+    return out + check_returned(op, reqs[0], calls)
+
+
 def nontrivial(c, io):
     if io.startswith(("EXIT", "CRASH")): return False
-    calls = split_out(io, c.line.split()[0])
+    op, reqs = parse_case(c.line)
+    calls = split_out(io, ncalls_of(op, reqs))
     if not calls: return False
     x, w, n, tr = calls[0]
     rc = rebracket_cases(tr)
